@@ -73,6 +73,8 @@ func (t *Term) String() string {
 		} else {
 			s = "false"
 		}
+	case "lambda":
+		s = fmt.Sprintf("(lambda ((%s %s)) %s)", t.args[0].name, t.args[0].sort, t.args[1].String())
 	case "forall", "exists":
 		// args[0..n-2] bound consts, args[n-1] body
 		var b strings.Builder
@@ -352,6 +354,11 @@ func tForallPat(vars []*Term, body *Term, pats ...*Term) *Term {
 	}
 	return t
 }
+// tLambda builds an array comprehension (z3 extension): (lambda ((v Int)) body).
+func tLambda(v *Term, body *Term, sort string) *Term {
+	return &Term{op: "lambda", args: []*Term{v, body}, sort: sort}
+}
+
 func tExists(vars []*Term, body *Term) *Term {
 	if body.isFalse() {
 		return tFalse
@@ -372,6 +379,13 @@ func collectConsts(t *Term, seen map[*Term]bool, out map[string]string) {
 	switch t.op {
 	case "const":
 		out[t.name] = t.sort
+	case "lambda":
+		inner := map[string]string{}
+		collectConsts(t.args[1], map[*Term]bool{}, inner)
+		delete(inner, t.args[0].name)
+		for k, v := range inner {
+			out[k] = v
+		}
 	case "forall", "exists":
 		inner := map[string]string{}
 		collectConsts(t.args[len(t.args)-1], map[*Term]bool{}, inner)
